@@ -8,7 +8,12 @@ RUN_MODULE = "RunC18"
 RULE = ("one case = a history of 2-5 runs on one real recorder: operations of two or three classes (instance and class-level, "
         "the same class several times with different extractors: dict / raises / junk int / junk pairs / none) terminating by "
         "return, ordinary exception or interrupt at a random step incl. inside intercepted bodies and after outputs were "
-        "captured, with discards and replays in between; non-trivial = a run that is saved; distinct = distinct history")
+        "captured, with discards and replays in between; operation classes that derive from another class of the service "
+        "(base plain or with registered recording parameters, derived class registered or not, the decorated operation defined "
+        "in the derived class or inherited; a deterministic grid over level x inherited x termination x extractor); after each "
+        "history the lookup is asked through properties objects in every state reached after construction (skip_incomplete "
+        "switched on / off / toggled, .metadata reassigned, one object for all categories and looked up twice); "
+        "non-trivial = a run that is saved; distinct = distinct history")
 ASSUMPTIONS = ["duration and timestamp come from the OS clock: only sanity (0 <= duration < 1h; the timestamp is a naive UTC time "
                "within two minutes of the save, also when the process's local time zone is not UTC) is checked by the harness, "
                "they are excluded from the model comparison",
@@ -51,12 +56,51 @@ def rand_extractor(rng):
     return {"kind": "junk", "junk": rng.choice(["int", "pairs"])}
 
 
+PLAIN_PRM = dict(rate=[1, 1], ignore=False, skipped=False, copy=False)
+
+
+def rand_base(rng, cls):
+    """the class the operation class derives from: plain or with recording parameters of its own registered; the decorated
+    operation is defined in the derived class or in the base class and inherited"""
+    prm = None
+    if rng.random() < 0.75:
+        prm = dict(rate=rng.choice([[1, 1], [1, 1], [1, 1], [3, 2], [1, 2]]), ignore=rng.random() < 0.3, skipped=False,
+                   copy=rng.random() < 0.3)
+    return dict(name="Base" + cls, prm=prm, inherits_op=rng.random() < 0.5)
+
+
+def hierarchy_grid():
+    """deterministic core: an operation run on a class derived from a class with registered parameters, every termination
+    mode, instance and class level, operation defined in the derived class or inherited, with and without an extractor"""
+    term = {"return": {"k": "ret", "e": {"lit": pv.i(1)}}, "raise": {"k": "raise", "ty": "ValueError"},
+            "interrupt": {"k": "interrupt"}}
+    out_site = dict(k="out", cfg=dict(alias="send", static=True, handler="none", fail=True, default=pv.none()),
+                    body={"k": "ret", "e": {"lit": pv.none()}}, args=[{"lit": pv.s("x")}], kwargs=[])
+    for classlevel in (False, True):
+        for inherits_op in (False, True):
+            for how in ("return", "raise", "interrupt"):
+                for ex in ({"kind": "none"}, {"kind": "dict", "d": [["tenant", pv.s("t1")]]}):
+                    for own in (None, dict(PLAIN_PRM)):
+                        base = dict(name="BaseOp", prm=dict(PLAIN_PRM), inherits_op=inherits_op)
+                        op = dict(cls="OpD", classlevel=classlevel, extractor=rd.clean(ex), base=base,
+                                  body=dict(out_site, next=rd.clean(term[how])))
+                        flat = dict(cls="OpA", classlevel=classlevel, extractor=rd.clean(ex), body=rd.clean(term[how]))
+                        runs = [dict(kind="record", enabled=True, prm=own, op=op, save_fails=False),
+                                dict(kind="record", enabled=True, prm=dict(PLAIN_PRM), op=flat, save_fails=False),
+                                dict(kind="record", enabled=True, prm=own, op=rd.clean(op), save_fails=False)]
+                        yield dict(interrupt_kind="keyboard", draws=[], runs=runs, cassette="memory", lookup=True,
+                                   lookup_variants=True, stream="hierarchy-grid")
+
+
 def generate(rng, tier):
-    cases = []
+    cases = list(hierarchy_grid())
     n = 220 if tier == "quick" else 3000
     for i in range(n):
         runs = []
         classes = rng.sample(["OpA", "OpB", "Op_C"], rng.choice([1, 2]))
+        # some operation classes derive from another class of the service (declared once per history)
+        bases = {c: rand_base(rng, c) if rng.random() < 0.3 else None for c in classes}
+        registered = {c: (rng.random() < 0.4) if bases[c] else True for c in classes}
         for _ in range(rng.randrange(2, 6)):
             recs = [r for r in runs if r["kind"] == "record"]
             if recs and rng.random() < 0.25:
@@ -69,9 +113,12 @@ def generate(rng, tier):
             if rng.random() < 0.12:
                 # a run that RETURNS a value shaped like the stored form of an exception did not end in an exception
                 set_final_ret(op["body"], ERROR_SHAPED)
-            runs.append(dict(kind="record", enabled=True, prm=dict(rate=[1, 1], ignore=False, skipped=False, copy=False),
+            if bases[op["cls"]]:
+                op["base"] = rd.clean(bases[op["cls"]])
+            runs.append(dict(kind="record", enabled=True, prm=dict(PLAIN_PRM) if registered[op["cls"]] else None,
                              op=op, save_fails=False, in_handler=rng.random() < 0.3))
-        cases.append(dict(interrupt_kind=rng.choice(INTERRUPT_KINDS), draws=[], runs=runs, cassette="memory", lookup=True))
+        cases.append(dict(interrupt_kind=rng.choice(INTERRUPT_KINDS), draws=[], runs=runs, cassette="memory", lookup=True,
+                          lookup_variants=True))
     return cases
 
 
@@ -82,7 +129,7 @@ def direct(case, obs):
         return []          # region of known finding F07c (reported by C01): nothing is concluded from such a case
     fails = []
     ordn = 0
-    want_lookup = {}
+    want_lookup, want_all, want_returned = {}, {}, {}
     for i, (run, ob) in enumerate(zip(case["runs"], obs["runs"])):
         if run["kind"] != "record":
             continue
@@ -97,7 +144,9 @@ def direct(case, obs):
         o, _ = rd.twin_run(run["op"]["body"])
         op = run["op"]
         if meta.get("_tape_recorder_operation_class") != {"t": "clsref", "v": op["cls"]}:
-            fails.append(("wrong-class", "run %d: %s" % (i, meta.get("_tape_recorder_operation_class"))))
+            fails.append(("wrong-class", "run %d was an operation of class %s%s; the metadata states %s" %
+                          (i, op["cls"], " (derived from %s)" % op["base"]["name"] if op.get("base") else "",
+                           meta.get("_tape_recorder_operation_class"))))
         inc = meta.get("_tape_recorder_incomplete_recording")
         if inc != {"t": "bool", "v": o["o"] == "int"}:
             fails.append(("wrong-incomplete-flag", "run %d ended by %s but incomplete flag is %s" % (i, o["o"], inc)))
@@ -121,15 +170,63 @@ def direct(case, obs):
             if not ack.get("duration_ok") or not ack.get("recorded_at_utc_ok"):
                 fails.append(("bad-clock-metadata", "run %d under %s: the recording timestamp is not the UTC time of the "
                               "save: %s" % (i, ALT_ENVS[k], ack)))
+        want_all.setdefault(op["cls"], []).append(my_ord)
         if o["o"] != "int":
             want_lookup.setdefault(op["cls"], []).append(my_ord)
+        if o["o"] == "val":
+            want_returned.setdefault(op["cls"], []).append(my_ord)
     lk = obs.get("lookup")
     if lk is not None:
         for cat in set(list(lk) + list(want_lookup)):
             if sorted(lk.get(cat, [])) != sorted(want_lookup.get(cat, [])):
                 fails.append(("default-lookup-wrong", "default find_matching_recording_ids for %s returned recordings %s, "
                               "the complete saved ones are %s" % (cat, sorted(lk.get(cat, [])), sorted(want_lookup.get(cat, [])))))
+    # the same question asked through lookup-properties objects that reached their state after construction: what counts
+    # is skip_incomplete / metadata at the time of the lookup
+    expect = {"late_on": want_lookup, "meta_none": want_lookup, "meta_empty": want_lookup, "late_off": want_all,
+              "ctor_off": want_all, "meta_filter": want_returned, "ctor_filter": want_returned}
+    how = {"late_on": "constructed with skip_incomplete=False, skip_incomplete switched on afterwards",
+           "late_off": "constructed with the default, skip_incomplete switched off afterwards",
+           "ctor_off": "constructed with skip_incomplete=False",
+           "meta_none": "default skip_incomplete, .metadata reassigned (None) after construction",
+           "meta_empty": "default skip_incomplete, .metadata reassigned ({}) after construction",
+           "meta_filter": "default skip_incomplete, .metadata reassigned to {exception flag: False} after construction",
+           "ctor_filter": "default skip_incomplete, metadata={exception flag: False} given to the constructor"}
+    lv = obs.get("lookup_variants") or {}
+    cats = set(run["op"]["cls"] for run in case["runs"] if run["kind"] == "record")
+
+    def compare(label, got, want, sig="adjusted-lookup-wrong"):
+        for cat in sorted(cats):
+            if sorted(got.get(cat, [])) != sorted(want.get(cat, [])):
+                fails.append((sig, "find_matching_recording_ids for %s with lookup properties (%s) returned recordings %s, "
+                              "expected %s (saved: %s, of which complete: %s)" %
+                              (cat, label, sorted(got.get(cat, [])), sorted(want.get(cat, [])), sorted(want_all.get(cat, [])),
+                               sorted(want_lookup.get(cat, [])))))
+                return
+    for name in sorted(lv):
+        v = lv[name]
+        if "error" in v:
+            fails.append(("lookup-error", "lookup with properties (%s) failed: %s" % (how.get(name, name), v["error"])))
+        elif name == "toggle":
+            compare("default; first lookup", v["on1"], want_lookup)
+            compare("same object, skip_incomplete switched off after a lookup", v["off"], want_all)
+            compare("same object, skip_incomplete switched on again", v["on2"], want_lookup)
+        elif name in expect:
+            compare(how[name], v["fresh"], expect[name])
+            compare(how[name] + "; one object for all categories, second lookup", v["shared"], expect[name])
     return fails
+
+
+_hist_features = features     # (from rec_common)
+
+
+def features(case):      # noqa: F811
+    fs = _hist_features(case)
+    if case.get("lookup_variants"):
+        fs.add("lookup:properties-adjusted-after-construction")
+    if case.get("stream"):
+        fs.add("stream:" + case["stream"])
+    return fs
 
 
 MANIFEST = dict(
@@ -143,7 +240,10 @@ MANIFEST = dict(
          "operations with all termination modes and extractor kinds (same class repeatedly, replays and discards in between) "
          "on the real recorder, full metadata (minus the two clock values) compared with the model. Direct predicate: flags vs "
          "the harness-side twin's termination mode, user keys vs the extractor, clock sanity, and the default "
-         "find_matching_recording_ids returns exactly the complete saved recordings.",
+         "find_matching_recording_ids returns exactly the complete saved recordings - also when the lookup properties reached "
+         "their state after construction (skip_incomplete / metadata assigned later, one object reused): the state at lookup time "
+         "decides (skip_incomplete off: all saved recordings; an exception-flag filter: the complete runs that returned). The "
+         "class stated is the class the operation ran on, also for classes derived from a class with registered parameters.",
     note="Partial: 'duration consistent with wall time' is about the OS clock (sanity-checked by the harness, not modelled). "
          "Hypothesis: aliases / user keys not containing the reserved operation alias. Trusted: Coq kernel + vm_compute, "
          "hand-written model, harness twin.",
